@@ -172,3 +172,9 @@ BENIGN += [
     # the normalized-path writer as a translation table covering all 32 C0 controls, quote and backslash
     dict(id="c08-writer-as-translate-table", props=["C08", "C12", "C13", "C14"], file=S + "serialize.py", old=_SER_OLD, new=_SER_TABLE.replace("{N}", "0x20")),
 ]
+
+BENIGN += [
+    # UnicodeDecodeError is a ValueError: its own handler is subsumed by the (ValueError, RecursionError) one, same text
+    dict(id="c20-unicode-handler-subsumed", props=["C20"], file=S + "cli.py",
+         old="    except UnicodeDecodeError as err:\n        if args.debug:\n            raise\n        sys.stderr.write(f\"target document decode error: {err}\\n\")\n        sys.exit(1)\n", new=""),
+]
